@@ -411,6 +411,29 @@ def norm_guards(gs):
     return out
 
 
+def edge_atoms(fn, bb):
+    """for a switch block: [(target, atoms true on the edge(s) to that target)] in the normal form of norm_guards"""
+    t = fn.blocks[bb].term
+    if t.k != "switch":
+        return []
+    edges = switch_edges(fn, bb)
+    by_target = defaultdict(list)
+    for lab, tgt in edges:
+        by_target[tgt].append(lab)
+    pred = switch_pred(fn, bb)
+    out = []
+    for tgt, labs in by_target.items():
+        bval = None
+        if t.j.get("discr_ty") == "bool":
+            if labs == [0]:
+                bval = False
+            elif labs == ["else"]:
+                bval = True
+        gd = {"bb": bb, "labels": labs, "pred": pred, "bool": bval, "target": tgt, "all_labels": [l for l, _ in edges]}
+        out.append((tgt, norm_guards([gd])))
+    return out
+
+
 def atom_holds(atoms, rel, pa, pb):
     """is the relation `a rel b` among the normalised atoms, for operands selected by the predicates pa / pb (also
     tried with the operands swapped)"""
